@@ -311,7 +311,12 @@ func (s *Solver) Values(vars []*Term) (Model, error) {
 		}
 		var names []string
 		for _, v := range vars[i:j] {
-			names = append(names, v.Name)
+			if s.declared[v.ID] {
+				names = append(names, v.Name)
+			}
+		}
+		if len(names) == 0 {
+			continue
 		}
 		s.send("(get-value (" + strings.Join(names, " ") + "))")
 		// read a balanced s-expression
